@@ -709,17 +709,17 @@ def run(ctx):
     for name, script in WITNESSES.items():
         jobs.append((name, script, False))
     # 2. random sessions over the widened operation set: clean ones (inputs of the known defects avoided) and unrestricted ones
-    n_clean, n_full = ctx.pick((34, 22), (400, 300))
+    n_clean, n_full = ctx.pick((60, 40), (400, 300))
     dmax = ctx.pick(24, 40)
     for k in range(n_clean + n_full):
         clean = k < n_clean
         ops = gen_session(rng, rng.randint(1, 30), clean, dmax)
         jobs.append(("random-%s-%d" % ("clean" if clean else "full", k), [o[0] for o in ops], True))
     # 2a. sessions aimed at the case splits of the proofs
-    for k in range(ctx.pick(32, 320)):
+    for k in range(ctx.pick(64, 320)):
         jobs.append(("aimed-%s-%d" % (AIMED[k % len(AIMED)], k), gen_aimed_session(rng, k, dmax), True))
     # 2b. growing / shrinking degrees with multiple roots and clusters on one context (standard algorithm)
-    for k in range(ctx.pick(10, 120)):
+    for k in range(ctx.pick(16, 120)):
         goal = "a" if k % 5 == 4 else "i"
         jobs.append(("grow-%s-%d" % (goal, k), gen_grow_session(rng, goal, ctx.pick(18, 30)), True))
 
